@@ -2,11 +2,18 @@
 
 Case lines
   1 kind mode p1 p2        kind 1 TSS<int> | 2 TSD<int,TS<int>> | 3 tick TSW<int,period=p1,min_period=p2>
+                                4 TSD<int,TSS<int>> (nested; no Coq model, oracle only) | 7 TSB{a,b,c:TS<int>} | 8 TSL<TS<int>,3>
                            mode 0: stand-alone TSOutput, observed through TSOutputView
+                           mode 1: the collection is the output of a scripted source node of a real graph run by the
+                                   simulation executor; an ACTIVE probe node and a PASSIVE probe node (woken every smallest
+                                   step by its own scheduler) are bound to it; the passive probe prints, through its
+                                   TSInputView, the same lines at every scripted cycle time
   2 t (code a b)*          one engine cycle at time t and the mutations applied in it, in order
      TSS  1 add k | 2 remove k | 3 clear | 4 reserve c | 5 touch
      TSD  1 set k v | 2 erase k | 3 clear | 4 reserve c | 5 touch | 6 create k (at(k), child not written)
      TSW  1 push v | 3 clear
+     TSB/TSL 1 set i v
+     nested  1 add e to the set at key k (creating it) | 2 remove e from the set at key k | 3 erase key k | 4 clear
 Observation lines (per cycle, after the mutations)
   19 r*                    result of each mutation (add/remove/erase: changed; TSW: 2 = logic_error)
   20 t modified valid all_valid last_modified size capacity [TSW: full min has_removed removed cleared first_time]
@@ -16,6 +23,10 @@ Observation lines (per cycle, after the mutations)
   24 slot states (0 free 1 live 2 pending erase)   25 slot keys   26/27/35 raw added/removed/modified bits
   36 TSD key_set: modified valid last_modified
   28 value() surface       29 flag + delta added / modified map / pushed element       30 flag + delta removed
+  37 ticked                the ACTIVE probe ran in this cycle (stand-alone mode: modified)
+  38 (i v)*                TSB/TSL: child.delta_value() through the endpoint view (not compared with the model)
+  40 k valid lmt modified n v* na a* nr r*     nested: child set of live key k, its added / removed
+  41 k v*                  nested: readable value of removed key k
   18 code                  construction failed
 """
 import random
@@ -33,7 +44,10 @@ PROP_KINDS = {"C05": {
     "tsd_step_value", "tsd_added_not_modified", "tsd_modified_not_live", "tsd_removed_value",
     "tsd_resurrect_lost_modified",
     "win_lastn", "win_valid", "win_delta", "win_evicted", "win_size", "shape", "crash",
+    "notify", "fixed_step", "fixed_delta", "nested_step", "nested_child_step", "nested_unmodified_changed",
 }}
+# reported in the statistics only (suspected secondary findings, see docs/notes-coll.md):
+#   tsl_child_delta_unmodified, nested_resurrect_stale
 
 
 # ---------------------------------------------------------------- generator
@@ -90,17 +104,54 @@ def _gen_pattern_cycle(rng, keys, kind):
     return ops
 
 
+def _gen_fixed(rng, kind, mode, ncyc, t):
+    case = [[1, kind, mode, 0, 0]]
+    for _ in range(ncyc):
+        ops = []
+        for _ in range(rng.choice([0, 1, 1, 2, 2, 3, 4])):
+            ops += [1, rng.randint(0, 2), rng.randint(1, 99)]
+        case.append([2, t] + ops)
+        t += rng.choice([1, 1, 1, 2, 3])
+    return case
+
+
+def _gen_nested(rng, mode, ncyc, t):
+    keys = list(range(1, rng.choice([2, 3, 3, 4]) + 1))
+    case = [[1, 4, mode, 0, 0]]
+    for _ in range(ncyc):
+        ops = []
+        for _ in range(rng.choice([0, 1, 1, 2, 3, 4, 5])):
+            r = rng.random()
+            k = rng.choice(keys)
+            if r < 0.50:
+                ops += [1, k, rng.randint(1, 4)]
+            elif r < 0.72:
+                ops += [2, k, rng.randint(1, 4)]
+            elif r < 0.95:
+                ops += [3, k, 0]
+            else:
+                ops += [4, 0, 0]
+        case.append([2, t] + ops)
+        t += rng.choice([1, 1, 1, 2, 3])
+    return case
+
+
 def gen(rng, tier, prop):
     r = rng.random()
-    kind = 1 if r < 0.38 else (2 if r < 0.80 else 3)
+    kind = 1 if r < 0.30 else (2 if r < 0.62 else (3 if r < 0.76 else (4 if r < 0.86 else (7 if r < 0.93 else 8))))
+    mode = 1 if rng.random() < 0.4 else 0
     ncyc = rng.randint(2, 14 if tier == "quick" else 40)
     t = rng.randint(1, 3)
+    if kind in (7, 8):
+        return _gen_fixed(rng, kind, mode, ncyc, t)
+    if kind == 4:
+        return _gen_nested(rng, mode, ncyc, t)
     if kind == 3:
         n = rng.randint(1, 5)
         m = rng.randint(0, n) if rng.random() < 0.9 else n + 1
         if rng.random() < 0.02:
             n = 0
-        case = [[1, 3, 0, n, m]]
+        case = [[1, 3, mode, n, m]]
         for _ in range(ncyc + rng.randint(0, 8)):
             rr = rng.random()
             if rr < 0.72:
@@ -117,7 +168,7 @@ def gen(rng, tier, prop):
         return case
     keys = _keys(rng, tier)
     big = len(keys) > 7
-    case = [[1, kind, 0, 0, 0]]
+    case = [[1, kind, mode, 0, 0]]
     for _ in range(ncyc):
         rr = rng.random()
         if rr < 0.12:
@@ -142,7 +193,8 @@ def enumerate_cases(prop):
                     ops = []
                     for i, (code, k) in enumerate((a, b, c)):
                         ops += [code, k, (i + 3) if (kind == 2 and code == 1) else 0]
-                    out.append([[1, kind, 0, 0, 0], [2, 1, 1, 1, 1 if kind == 2 else 0], [2, 2] + ops, [2, 3], [2, 4, 1, 2, 9 if kind == 2 else 0]])
+                    for mode in (0, 1):
+                        out.append([[1, kind, mode, 0, 0], [2, 1, 1, 1, 1 if kind == 2 else 0], [2, 2] + ops, [2, 3], [2, 4, 1, 2, 9 if kind == 2 else 0]])
     for n in range(1, 6):
         for m in range(0, n + 1):
             case = [[1, 3, 0, n, m]]
@@ -176,7 +228,12 @@ def split_obs(out):
             cur = {19: l[1:]}
             blocks.append(cur)
         elif cur is not None:
-            cur[l[0]] = l[1:]
+            if l[0] == 40:
+                cur.setdefault("rows40", []).append(l[1:])
+            elif l[0] == 41:
+                cur.setdefault("rows41", []).append(l[1:])
+            else:
+                cur[l[0]] = l[1:]
     return blocks
 
 
@@ -199,11 +256,15 @@ def oracle(prop, case, out):
     if len(blocks) != len(cycles):
         return [("shape", "%d cycles scripted, %d observed" % (len(cycles), len(blocks)))]
     if kind == 1:
-        return _oracle_tss(cycles, blocks)
+        return _oracle_tss(cycles, blocks) + _oracle_notify(blocks)
     if kind == 2:
-        return _oracle_tsd(cycles, blocks)
+        return _oracle_tsd(cycles, blocks) + _oracle_notify(blocks)
     if kind == 3:
-        return _oracle_tsw(hdr[2], hdr[3], cycles, blocks)
+        return _oracle_tsw(hdr[2], hdr[3], cycles, blocks) + _oracle_notify(blocks)
+    if kind in (7, 8):
+        return _oracle_fixed(cycles, blocks) + _oracle_notify(blocks)
+    if kind == 4:
+        return _oracle_nested(cycles, blocks) + _oracle_notify(blocks)
     return fails
 
 
@@ -455,6 +516,130 @@ def _oracle_tsw(n, m, cycles, blocks):
     return fails
 
 
+def _oracle_notify(blocks):
+    """an active consumer is woken in exactly the cycles in which the collection ticked"""
+    fails = []
+    for b in blocks:
+        if 37 in b and 20 in b and b[37][:1] != [b[20][1]]:
+            fails.append(("notify", "t=%d active consumer ran=%s but modified=%d" % (b[20][0], b[37], b[20][1])))
+    return fails
+
+
+def _oracle_fixed(cycles, blocks):
+    fails = []
+    prev = {}
+    for (t, ops), b in zip(cycles, blocks):
+        try:
+            modified = b[20][1]
+            items = {i: (valid, v, lmt) for (i, valid, v, lmt) in pairs(b[33], 4)}
+            delta = dict(pairs(b[29][1:], 2))
+            dflag = b[29][0]
+            modidx = b[31][1:]
+        except (KeyError, IndexError, ValueError):
+            return fails + [("shape", "cycle %d: missing lines" % t)]
+        cur = {i: v for i, (valid, v, _l) in items.items() if valid}
+        applied = dict(prev)
+        applied.update(delta)
+        if applied != cur:
+            fails.append(("fixed_step", "t=%d previous %s with delta %s gives %s, observed %s" % (t, prev, delta, applied, cur)))
+        spec = dict(prev)
+        written = set()
+        for (c, a, v) in ops:
+            if c == 1 and 0 <= a < 3:
+                spec[a] = v
+                written.add(a)
+        if cur != spec:
+            fails.append(("net_effect", "t=%d children %s but the script yields %s" % (t, cur, spec)))
+        if set(delta) != written or sorted(modidx) != sorted(written) or b[31][0] != len(written):
+            fails.append(("fixed_delta", "t=%d delta %s / modified children %s but the script wrote %s" % (t, delta, b[31], sorted(written))))
+        if dflag != modified or bool(modified) != bool(written):
+            fails.append(("unmodified_delta", "t=%d modified=%d delta flag=%d written=%s" % (t, modified, dflag, sorted(written))))
+        vd = dict(pairs(b.get(38, []), 2))
+        if set(vd) - written:
+            fails.append(("tsl_child_delta_unmodified", "t=%d child.delta_value() has a value for unmodified children %s (written %s)"
+                          % (t, sorted(set(vd) - written), sorted(written))))
+        prev = cur
+    return fails
+
+
+def _rows40(b):
+    """nested rows are repeated lines with the same tag: they were collected as a list under tag 40 / 41"""
+    return b.get(40, []), b.get(41, [])
+
+
+def _oracle_nested(cycles, blocks):
+    fails = []
+    prev = {}                       # key -> frozenset (valid keys only)
+    ghost = set()
+    for (t, ops), b in zip(cycles, blocks):
+        try:
+            modified = b[20][1]
+            keys, add, rem, modk, validk = b[21], b[22], b[23], b[31], b[32]
+        except (KeyError, IndexError):
+            return fails + [("shape", "cycle %d: missing lines" % t)]
+        rows = {}
+        for row in b.get("rows40", []):
+            k, valid, lmt, cmod = row[0:4]
+            p = 4
+            n = row[p]; vals = row[p + 1:p + 1 + n]; p += 1 + n
+            na = row[p]; cadd = row[p + 1:p + 1 + na]; p += 1 + na
+            nr = row[p]; crem = row[p + 1:p + 1 + nr]
+            rows[k] = (valid, lmt, cmod, set(vals), set(cadd), set(crem))
+        cur = {k: frozenset(r[3]) for k, r in rows.items() if r[0]}
+        K, A, R, M, P = set(cur), set(add), set(rem), set(modk), set(prev)
+        if set(validk) != K:
+            fails.append(("value_surface", "t=%d valid_keys %s vs valid children %s" % (t, validk, sorted(K))))
+        if K != (P - R) | A or A & R or A - K or A & P or R & K or R - P:
+            fails.append(("nested_step", "t=%d keys %s prev %s added %s removed %s" % (t, sorted(K), sorted(P), sorted(A), sorted(R))))
+        if M - set(keys):
+            fails.append(("tsd_modified_not_live", "t=%d modified keys %s not live" % (t, sorted(M - set(keys)))))
+        # script semantics
+        spec = {k: set(v) for k, v in prev.items()}
+        gh = set(ghost)
+        resurrect = False
+        erased_now = set()
+        for (c, a, e) in ops:
+            if c == 1:
+                if a in erased_now and a not in spec and a not in gh:
+                    resurrect = True
+                if a not in spec:
+                    spec[a] = set()
+                gh.discard(a)
+                spec[a].add(e)
+            elif c == 2:
+                if a in spec:
+                    spec[a].discard(e)
+                elif a in gh:
+                    gh.discard(a); spec[a] = set()        # an (empty) tick validates the child set
+            elif c == 3:
+                if a in spec or a in gh:
+                    erased_now.add(a)
+                spec.pop(a, None); gh.discard(a)
+            elif c == 4:
+                erased_now |= set(spec) | gh
+                spec.clear(); gh.clear()
+        speccur = {k: frozenset(v) for k, v in spec.items()}
+        if cur != speccur:
+            fails.append(("nested_resurrect_stale" if resurrect else "net_effect",
+                          "t=%d children %s but the script yields %s" % (t, {k: sorted(v) for k, v in cur.items()}, {k: sorted(v) for k, v in speccur.items()})))
+        # child coherence: for a modified key, child value = (previous child value - child removed) + child added
+        for k in K:
+            valid, lmt, cmod, vals, cadd, crem = rows[k]
+            before = set(prev.get(k, frozenset())) if k not in A else set()
+            if k in M:
+                if vals != (before - crem) | cadd or cadd & crem or cadd - vals or crem & vals:
+                    fails.append(("nested_resurrect_stale" if resurrect else "nested_child_step",
+                                  "t=%d key %d: child %s != (prev %s - removed %s) + added %s" % (t, k, sorted(vals), sorted(before), sorted(crem), sorted(cadd))))
+            elif k in P and vals != set(prev[k]):
+                fails.append(("nested_resurrect_stale" if resurrect else "nested_unmodified_changed",
+                              "t=%d key %d not modified but its set changed %s -> %s" % (t, k, sorted(prev[k]), sorted(vals))))
+        if not modified and (A or R or M):
+            fails.append(("unmodified_delta", "t=%d not modified but delta +%s -%s ~%s" % (t, sorted(A), sorted(R), sorted(M))))
+        prev = cur
+        ghost = set(keys) - K
+    return fails
+
+
 # ---------------------------------------------------------------- evidence helpers
 def _events(case):
     hdr, cycles = parse_case(case)
@@ -499,6 +684,14 @@ def _events(case):
                     ev["set_erase_set"] += 1
         if len(nkeys) > 8:
             ev["growth"] += 1
+    elif kind in (4, 7, 8):
+        for t, ops in cycles:
+            if not ops:
+                ev["gap_cycles"] += 1
+            if kind == 4:
+                ks = [a for (c, a, _v) in ops if c == 3]
+                if any(c == 1 and a in ks for (c, a, _v) in ops):
+                    ev["set_erase_set"] += 1
     else:
         n, m = hdr[2], hdr[3]
         cnt = 0
@@ -522,18 +715,35 @@ def nontrivial(case, out):
     kind, ev = _events(case)
     if kind == 3:
         return ev["window_wrap"] > 0 or ev["window_below_min"] > 0
+    if kind in (4, 7, 8):
+        return sum(1 for l in case if l and l[0] == 2 and len(l) > 2) >= 2
     return ev["cancel_add_remove"] + ev["cancel_remove_add"] + ev["reinsert_later_cycle"] > 0
 
 
 def stats(case, out):
     hdr, cycles = parse_case(case)
     kind, ev = _events(case)
-    d = {"cases_tss": int(kind == 1), "cases_tsd": int(kind == 2), "cases_tsw": int(kind == 3),
+    d = {"cases_tss": int(kind == 1), "cases_tsd": int(kind == 2), "cases_tsw": int(kind == 3), "cases_nested_tsd_tss": int(kind == 4),
+         "cases_tsb": int(kind == 7), "cases_tsl": int(kind == 8), "cases_graph_mode": int(hdr[1] == 1),
          "cycles": len(cycles), "mutations": sum(len(o) for _, o in cycles)}
     d.update(ev)
     if isinstance(out, list):
+        info = [k for k, _d in oracle("C05", case, out) if k in ("tsl_child_delta_unmodified", "nested_resurrect_stale")]
+        d["info_tsl_child_delta_unmodified"] = int("tsl_child_delta_unmodified" in info)
+        d["info_nested_resurrect_stale"] = int("nested_resurrect_stale" in info)
         d["max_capacity_ge_16"] = int(any(l and l[0] == 20 and len(l) == 8 and l[7] >= 16 for l in out))
     return d
+
+
+def agree(case, impl_out, model_out):
+    """exact equality with the proved model, except: line 38 (view-level child deltas, oracle only) is not part of
+    the model's output; the nested family (kind 4) has no Coq model and is judged by the oracle alone."""
+    if not isinstance(impl_out, list) or not isinstance(model_out, list):
+        return False
+    hdr, _ = parse_case(case)
+    if hdr[0] == 4:
+        return True
+    return [l for l in impl_out if l and l[0] != 38] == model_out
 
 
 def shrink(case):
